@@ -403,7 +403,12 @@ func (r *c10Run) thirdParty() {
 		for _, tc := range []struct {
 			allow, move int64
 			revoked     int64 // an approval granted earlier and taken back (approve 0) before the one above
-		}{{0, 10, 0}, {50, 51, 0}, {50, 50, 0}, {80, 30, 0}, {0, 10, 40}} {
+			raw         *big.Int // the allowance in base units when it is not a whole number of FX (boundary values)
+		}{{0, 10, 0, nil}, {50, 51, 0, nil}, {50, 50, 0, nil}, {80, 30, 0, nil}, {0, 10, 40, nil},
+			// "unlimited" approvals as wallets send them: consumed like any other allowance
+			{30, 30, 0, new(big.Int).Sub(new(big.Int).Lsh(big.NewInt(1), 256), big.NewInt(1))},
+			{30, 30, 0, new(big.Int).Sub(new(big.Int).Lsh(big.NewInt(1), 255), big.NewInt(1))},
+			{30, 30, 0, new(big.Int).Add(chain.FX(30).BigInt(), big.NewInt(1))}} {
 			ctx := c.Branch()
 			if tc.revoked > 0 {
 				c.EthTxOn(ctx, e.Victim, &st, fix.StakingPack("approveShares", v0.String(), e.Caller.Hex(), chain.FX(tc.revoked).BigInt()), nil, 0)
@@ -414,7 +419,12 @@ func (r *c10Run) thirdParty() {
 				r.res.Count("revoked_allowance_cases", 1)
 			}
 			if tc.allow > 0 {
-				if er := c.EthTxOn(ctx, e.Victim, &st, fix.StakingPack("approveShares", v0.String(), e.Caller.Hex(), chain.FX(tc.allow).BigInt()), nil, 0); er.Failed() {
+				amount := chain.FX(tc.allow).BigInt()
+				if tc.raw != nil {
+					amount = tc.raw
+					r.res.Count("boundary_allowance_cases", 1)
+				}
+				if er := c.EthTxOn(ctx, e.Victim, &st, fix.StakingPack("approveShares", v0.String(), e.Caller.Hex(), amount), nil, 0); er.Failed() {
 					r.res.Inconclusive = "approve: " + er.VmError()
 					return
 				}
